@@ -83,6 +83,12 @@ CHECKS["C20"] = dict(
    note="Catalogue transcribed from the validate tags (DESIGN Appendix I); JSON-typing errors are judged on up-front rejection only (the decoder's message carries no field name); controllerGlobs:[] and a missing commonConfig are observed, not judged.",
    ref="DESIGN.md §5 C20, Appendix I")
 
+CHECKS["C09"] = dict(
+   technique="compiler-as-oracle monitor: every routes file left behind by a successful `generate routes` run for each of the five engines and three flag combinations is parsed, compiled with `go build` against the engine, the user's controller packages and an instrumented authorization package, and checked against gofmt",
+   text="Runtime monitoring of the real CLI plus the Go toolchain on 16 (thorough 120) generated projects x 5 engines: hostile identifier names (template locals, package names, predeclared identifiers, colliding lower-camel forms), same-base-name types from several packages, map/time/any/[]byte/nested-slice/[]*T values, custom error types by value and pointer, security, experimental flags. Failures are attributed to a cause from the descriptor and the first compiler diagnostics so that the three known findings cannot hide an unrelated compile or formatting defect. Exploration only.",
+   note="go build and go/format are trusted; the gofmt finding is only matched when the file differs from its gofmt form solely by removed blank lines, in-line alignment and order inside the merged import block.",
+   ref="DESIGN.md §5 C09")
+
 NOT_YET = {
 }
 ALL = ["C%02d" % i for i in range(1, 21)]
